@@ -185,8 +185,8 @@ func TestChanBulk(t *testing.T) {
 		total := rapid.SampledFrom([]int{2000, 6000}).Draw(t, "values")
 		batch := rapid.SampledFrom([]int{64, 256, 700}).Draw(t, "batch")
 		nObs := rapid.IntRange(1, 3).Draw(t, "observers")
-		rb := rapid.Bool().Draw(t, "withRollbacks")
-		trace := []string{fmt.Sprintf("values=%d batch=%d observers=%d rollbacks=%v", total, batch, nObs, rb)}
+		pattern := rapid.SliceOfN(rapid.IntRange(0, 3), 1, 5).Draw(t, "pattern") // 0 commit, 1 full replay, 2 half replay, 3 small replay
+		trace := []string{fmt.Sprintf("values=%d batch=%d observers=%d pattern=%v", total, batch, nObs, pattern)}
 		vkit.CaseStart(func() string { return strings.Join(trace, " ; ") })
 		var (
 			mu    sync.Mutex
@@ -237,31 +237,55 @@ func TestChanBulk(t *testing.T) {
 					}
 				}()
 			}
-			next := 1
-			for next <= total && !failed.Load() {
-				n := min(batch, total-next+1)
-				for i := 0; i < n; i++ {
+			// the driver: big Gets, rollbacks, PARTIAL re-reads and commits in a drawn pattern
+			committed, pos := 0, 0 // values committed so far; values handed out so far (committed + delivered since)
+			get := func(n int, what string) bool {
+				for i := 0; i < n && pos < total; i++ {
 					v, err := ch.Get(context.Background())
-					if err != nil || v != any(next+i) {
-						note(fmt.Sprintf("Get returned (%v,%v), expected %d", v, err, next+i))
-						break
+					if err != nil || v != any(pos+1) {
+						note(fmt.Sprintf("%s returned (%v,%v), expected %d (committed %d)", what, v, err, pos+1, committed))
+						return false
 					}
+					pos++
 				}
-				if rb && next%3 == 1 {
-					// replay the whole batch once before committing it
-					_ = ch.Rollback()
-					for i := 0; i < n; i++ {
-						v, err := ch.Get(context.Background())
-						if err != nil || v != any(next+i) {
-							note(fmt.Sprintf("replayed Get returned (%v,%v), expected %d", v, err, next+i))
+				return true
+			}
+			for step := 0; committed < total && !failed.Load(); step++ {
+				n := min(batch, total-pos)
+				if !get(n, "Get") {
+					break
+				}
+				switch pattern[step%len(pattern)] {
+				case 1: // replay the whole batch once before committing it
+					if pos > committed {
+						_ = ch.Rollback()
+						k := pos - committed
+						pos = committed
+						if !get(k, "replayed Get") {
+							break
+						}
+					}
+				case 2, 3: // roll back, re-read only a part (a small one for 3), commit that part: the rest stays rolled back
+					if pos > committed {
+						_ = ch.Rollback()
+						k := pos - committed
+						part := k / 2
+						if pattern[step%len(pattern)] == 3 {
+							part = min(k, 16+step%5)
+						}
+						part = max(1, part)
+						pos = committed
+						if !get(part, "partially replayed Get") {
 							break
 						}
 					}
 				}
-				if err := ch.Commit(); err != nil {
-					note(fmt.Sprintf("Commit failed: %v", err))
+				if pos > committed {
+					if err := ch.Commit(); err != nil {
+						note(fmt.Sprintf("Commit failed: %v", err))
+					}
+					committed = pos
 				}
-				next += n
 			}
 			done.Store(true)
 			wg.Wait()
